@@ -556,3 +556,168 @@ pub fn drive_detchild(tr: &mut Tracer, parent_trace: &str) {
     }
     flush(tr, &mut case);
 }
+
+// ---------------------------------------------------------------------------------------
+// C19: extreme magnitudes, non-finite coordinates at every entry point
+// ---------------------------------------------------------------------------------------
+use delaunay::core::vertex::Vertex;
+use delaunay::geometry::point::Point;
+use delaunay::geometry::traits::coordinate::Coordinate;
+use delaunay::triangulation::flips::BistellarFlips;
+
+fn raw_call(tr: &mut Tracer, name: &str, detail: serde_json::Value, f: impl FnOnce() -> String) {
+    let g = tr.guard(name, f);
+    match g {
+        Guarded::Done(kind) => {
+            tr.emit("RawCall", 0, serde_json::json!({"call": name, "detail": detail}), serde_json::json!({"kind": kind}), None, false);
+        }
+        Guarded::Panicked(msg) => {
+            tr.emit("RawCall", 0, serde_json::json!({"call": name, "detail": detail}), serde_json::json!({"kind": "Panic", "msg": msg}), None, true);
+        }
+    }
+}
+
+fn raw_vertex<const D: usize>(c: [f64; D], n: u64) -> Vertex<f64, VData, D> {
+    Vertex::new_with_uuid(Point::new(c), mk_uuid(n), None)
+}
+
+fn extreme_case<K: Kern<D>, const D: usize>(cx: &mut Ctx, r: &mut Rng, idx: usize) {
+    let g = GUARANTEES[idx % 3];
+    // (1) lattice histories at extreme scales: the state oracles stay exact (homogeneous predicates)
+    let s = [300, -300, 100, -100, 60, -60, 340, -340][idx % 8];
+    cx.tr.s = s;
+    cx.start_case(format!("C19 extreme D={D} k={} s={s} i={idx}", K::NAME));
+    let hi = max_coord(D);
+    let pts = random_points(r, D, D + 3, hi);
+    let mut dt = op_empty::<K, D>(&mut cx.tr, 0, g);
+    let mut alive = true;
+    for p in &pts {
+        let v = VIn::lattice(cx.fresh_uuid(), p.clone(), None);
+        if !op_insert(&mut cx.tr, 0, &mut dt, &v, idx % 2 == 0) {
+            alive = false;
+            break;
+        }
+    }
+    if alive {
+        op_verdicts(&mut cx.tr, 0, &dt, 7);
+        let input = cx.inputs(&pts, false);
+        op_construct::<K, D>(&mut cx.tr, 1, Ctor::WithGuarantee, g, Opts::default_like(), &input);
+    }
+    cx.tr.s = 0;
+    // (2) non-finite coordinates at every entry point of a valid triangulation
+    cx.start_case(format!("C19 nonfinite D={D} k={} i={idx}", K::NAME));
+    let base = gp_points(r, D, D + 3, hi);
+    let input = cx.inputs(&base, false);
+    let Some(mut dt) = op_construct::<K, D>(&mut cx.tr, 0, Ctor::WithGuarantee, g, Opts::default_like(), &input) else { return };
+    for (bi, bad) in [f64::NAN, f64::INFINITY, f64::NEG_INFINITY].into_iter().enumerate() {
+        for axis in [0, D - 1] {
+            let mut c = [1.0f64; D];
+            c[axis] = bad;
+            let before = cx.tr.project(&dt);
+            let n = cx.fresh_uuid();
+            let detail = serde_json::json!({"bad": format!("{bad}"), "axis": axis});
+            {
+                let dtm = &mut dt;
+                raw_call(&mut cx.tr, "insert(non-finite)", detail.clone(), || match dtm.insert(raw_vertex::<D>(c, n)) {
+                    Ok(_) => "Ok".into(),
+                    Err(e) => format!("Err:{}", variant(&e)),
+                });
+            }
+            {
+                let dtm = &mut dt;
+                raw_call(&mut cx.tr, "insert_with_statistics(non-finite)", detail.clone(), || match dtm.insert_with_statistics(raw_vertex::<D>(c, n + 1)) {
+                    Ok((delaunay::core::operations::InsertionOutcome::Inserted { .. }, _)) => "Ok".into(),
+                    Ok(_) => "Skipped".into(),
+                    Err(e) => format!("Err:{}", variant(&e)),
+                });
+            }
+            {
+                let ck = dt.tds().cell_keys().next().unwrap();
+                let dtm = &mut dt;
+                raw_call(&mut cx.tr, "flip_k1_insert(non-finite)", detail.clone(), || match dtm.flip_k1_insert(ck, raw_vertex::<D>(c, n + 2)) {
+                    Ok(_) => "Ok".into(),
+                    Err(e) => format!("Err:{}", variant(&e)),
+                });
+            }
+            {
+                let dtr = &dt;
+                raw_call(&mut cx.tr, "locate(non-finite)", detail.clone(), || {
+                    match delaunay::core::algorithms::locate::locate(dtr.tds(), &K::default(), &Point::new(c), None) {
+                        Ok(x) => format!("Ok:{}", variant(&x)),
+                        Err(e) => format!("Err:{}", variant(&e)),
+                    }
+                });
+            }
+            if bi == 0 && axis == 0 {
+                let dtr = &dt;
+                raw_call(&mut cx.tr, "hull queries(non-finite)", detail.clone(), || {
+                    match delaunay::geometry::algorithms::convex_hull::ConvexHull::from_triangulation(dtr.as_triangulation()) {
+                        Ok(h) => format!("{:?}", h.is_point_outside(&Point::new(c), dtr.as_triangulation()).map_err(|e| variant(&e))),
+                        Err(e) => format!("Err:{}", variant(&e)),
+                    }
+                });
+                // batch construction with one non-finite input
+                let mut vs: Vec<Vertex<f64, VData, D>> = base.iter().enumerate().map(|(i, p)| VIn::lattice(70_000 + i as u64, p.clone(), None).vertex::<D>(0)).collect();
+                vs.push(raw_vertex::<D>(c, 70_999));
+                raw_call(&mut cx.tr, "construct(non-finite input)", detail.clone(), || match Dt::<K, D>::with_kernel(&K::default(), &vs) {
+                    Ok(d) => {
+                        if d.vertices().any(|(_, v)| v.point().coords().iter().any(|x| !x.is_finite())) { "Ok:contains-non-finite".into() } else { "Ok".into() }
+                    }
+                    Err(e) => format!("Err:{}", variant(&e)),
+                });
+            }
+            // the triangulation must be exactly as before, and must not contain a non-finite coordinate
+            let after = cx.tr.project(&dt);
+            let same = before["verts"] == after["verts"] && before["cells"] == after["cells"];
+            let has_bad = dt.vertices().any(|(_, v)| v.point().coords().iter().any(|x| !x.is_finite()));
+            cx.tr.emit("RawCheck", 0, serde_json::json!({"what": "non-finite calls"}), serde_json::json!({"unchanged": same, "contains_non_finite": has_bad}), None, false);
+        }
+    }
+    // (3) mixed raw magnitudes in one construction / insertion history: only C19 is judged
+    cx.start_case(format!("C19 magnitudes D={D} k={} i={idx}", K::NAME));
+    let mags = [1e300, 1e-300, 1e150, 1.0, -1e300, 1e-150, 3.5e200, 7.0];
+    let mut vs: Vec<Vertex<f64, VData, D>> = Vec::new();
+    for i in 0..(D + 4) {
+        let mut c = [0f64; D];
+        for (j, x) in c.iter_mut().enumerate() {
+            *x = mags[(i * 3 + j * 5 + idx) % mags.len()] * (1.0 + (i + j) as f64 * 0.125);
+        }
+        vs.push(raw_vertex::<D>(c, 80_000 + i as u64));
+    }
+    raw_call(&mut cx.tr, "construct(mixed magnitudes)", serde_json::json!({}), || match Dt::<K, D>::with_kernel(&K::default(), &vs) {
+        Ok(d) => format!("Ok:{}", d.number_of_cells()),
+        Err(e) => format!("Err:{}", variant(&e)),
+    });
+    let mut dt2 = Dt::<K, D>::with_empty_kernel_and_topology_guarantee(K::default(), g);
+    for v in &vs {
+        let vv = *v;
+        let d2 = &mut dt2;
+        raw_call(&mut cx.tr, "insert(mixed magnitudes)", serde_json::json!({}), || match d2.insert(vv) {
+            Ok(_) => "Ok".into(),
+            Err(e) => format!("Err:{}", variant(&e)),
+        });
+    }
+    {
+        let d2 = &mut dt2;
+        raw_call(&mut cx.tr, "repair(mixed magnitudes)", serde_json::json!({}), || match d2.repair_delaunay_with_flips() {
+            Ok(_) => "Ok".into(),
+            Err(e) => format!("Err:{}", variant(&e)),
+        });
+        let d3 = &dt2;
+        raw_call(&mut cx.tr, "validate(mixed magnitudes)", serde_json::json!({}), || format!("{}", d3.validate().is_ok()));
+    }
+}
+
+pub fn drive_extreme(cx: &mut Ctx) {
+    let per_dim = if cx.thorough { 48 } else { 8 };
+    for d in 2..=5usize {
+        for i in 0..per_dim {
+            let mut r = Rng::new(cx.seed * 9_000_049 + (d * 100_000 + i) as u64);
+            if !cx.mine() {
+                continue;
+            }
+            let k = (i / 2) % 2;
+            dispatch!(d, k, extreme_case(cx, &mut r, i));
+        }
+    }
+}
